@@ -49,7 +49,7 @@ func twinM() []byte {
 		wasmb.Import{Module: "t", Name: "tab", Kind: wasmb.KindTable, Table: wasmb.Table{Elem: wasmb.FuncRef, Lim: wasmb.Limits{Min: 6, Max: 6, HasMax: true}}},
 		wasmb.Import{Module: "t", Name: "shared", Kind: wasmb.KindGlobal, GlobalType: wasmb.I32, GlobalMut: true},
 		wasmb.Import{Module: "t", Name: "base", Kind: wasmb.KindGlobal, GlobalType: wasmb.I32})
-	m.Globals = []wasmb.Global{{Type: wasmb.I32, Mut: true, Init: wasmb.ConstI32(0)}} // own = global 2
+	m.Globals = []wasmb.Global{{Type: wasmb.I32, Mut: true, Init: wasmb.ConstI32(0)}} // own = global 2; global 3 (below) = ref.func id
 	m.Mem = &wasmb.Limits{Min: 1, Max: 1, HasMax: true}
 	ty := m.AddType(i32, i32)
 	c := func() *wasmb.Code { return &wasmb.Code{} }
@@ -67,6 +67,11 @@ func twinM() []byte {
 	m.Elems = []wasmb.Elem{{Mode: 0, Offset: wasmb.ConstGlobalGet(1), Funcs: []uint32{id}}}
 	m.Datas = []wasmb.Data{{Offset: wasmb.ConstGlobalGet(1), Bytes: []byte{0x5A}}}
 	m.AddFunc(i32, i32, nil, c().LocalGet(0).I32Load8U(0).B, "peek8")
+	// a passive element segment whose item is "global.get" of the module's OWN funcref global (= ref.func id);
+	// pinit(slot): table.init it into tab[slot]
+	m.Globals = append(m.Globals, wasmb.Global{Type: wasmb.FuncRef, Mut: false, Init: wasmb.ConstRefFunc(id)})
+	m.Elems = append(m.Elems, wasmb.Elem{Mode: 1, Funcs: []uint32{3}, GlobalAt: map[int]bool{0: true}})
+	m.AddFunc(i32, nil, nil, c().LocalGet(0).I32Const(0).I32Const(1).TableInit(1, 0).B, "pinit")
 	return m.Encode()
 }
 
@@ -149,16 +154,20 @@ func runTwins(t *tape.Tape, cfg sim.Config) (res sim.Result) {
 	crossTail := 0
 	for step, nsteps := 0, t.Range(6, 24); step < nsteps && res.Violation == nil; step++ {
 		i := t.Choose(n)
-		switch op := t.Weighted(3, 3, 4, 1); op {
-		case 0:
+		switch op := t.Weighted(3, 3, 4, 1, 2); op {
+		case 0, 4:
 			s := t.Choose(6)
-			if _, err := mods[i].ExportedFunction("put").Call(ctx, uint64(s)); err != nil {
-				res.Fail("unexpected-trap", "m%d.put(%d): %v", i, s, err)
+			fn := "put"
+			if op == 4 {
+				fn = "pinit" // table.init from the passive segment holding global.get of the instance's own funcref global
+			}
+			if _, err := mods[i].ExportedFunction(fn).Call(ctx, uint64(s)); err != nil {
+				res.Fail("unexpected-trap", "m%d.%s(%d): %v", i, fn, s, err)
 				return
 			}
 			slotsOf[tOf[i]][s] = i
-			res.Logf("m%d.put(%d)", i, s)
-			shape = append(shape, "put")
+			res.Logf("m%d.%s(%d)", i, fn, s)
+			shape = append(shape, fn)
 		case 1, 2:
 			fn := "call"
 			if op == 2 {
